@@ -4,8 +4,11 @@
    JavaScript String methods on byte strings with the documented differences (replace replaces
    every occurrence, split() without separator splits on white space).
    The Go library functions strings.Index / ReplaceAll / Split / Fields / TrimSpace / ToUpper /
-   ToLower / HasPrefix / HasSuffix are given by the Coq definitions below (ASCII white space and
-   ASCII case mapping only; an empty search/separator is modelled on ASCII receivers only). *)
+   ToLower / HasPrefix / HasSuffix are given by the Coq definitions below.  White space = the six
+   ASCII white-space bytes (strings containing other Unicode spaces are not generated); case mapping
+   is modelled on ASCII strings only; an empty search/separator works per UTF-8 sequence.
+   Byte semantics is the specified behaviour: /repo/tests/strings/length.php asserts
+   "你好世界"->length() == 12 and tests/strings/substring.php asserts substring(0, 6) == "你好". *)
 From V.C15 Require Import Model Spec Run.
 Open Scope Z_scope.
 
@@ -38,9 +41,22 @@ Fixpoint replace_fuel (fuel : nat) (old new s : string) : string :=
   end.
 Fixpoint interleave (sep s : string) : string :=     (* ReplaceAll(s, "", sep) on ASCII *)
   match s with EmptyString => sep | String a s' => (sep ++ String a (interleave sep s'))%string end.
+(* the UTF-8 sequences of a (valid) string: Go's strings.Split(s, "") and ReplaceAll(s, "", x)
+   work per rune; the width of a sequence is read off its first byte *)
+Definition lead_width (a : ascii) : nat :=
+  let n := nat_of_ascii a in
+  if Nat.ltb n 192 then 1 else if Nat.ltb n 224 then 2 else if Nat.ltb n 240 then 3 else 4.
+Fixpoint utf8_chars_fuel (fuel : nat) (s : string) : list string :=
+  match fuel, s with
+  | S f, String a _ => stake (lead_width a) s :: utf8_chars_fuel f (sdrop (lead_width a) s)
+  | _, _ => []
+  end.
+Definition utf8_chars (s : string) : list string := utf8_chars_fuel (String.length s) s.
+Definition interleave_chars (sep : string) (cs : list string) : string :=
+  fold_right (fun c acc => (sep ++ c ++ acc)%string) sep cs.
 Definition replace_all (old new s : string) : string :=
   match old with
-  | EmptyString => interleave new s
+  | EmptyString => interleave_chars new (utf8_chars s)
   | _ => replace_fuel (S (String.length s)) old new s
   end.
 Fixpoint split_fuel (fuel : nat) (sep cur s : string) : list string :=
@@ -58,7 +74,7 @@ Fixpoint chars (s : string) : list string :=
   match s with EmptyString => [] | String a s' => String a EmptyString :: chars s' end.
 Definition split_by (sep s : string) : list string :=
   match sep with
-  | EmptyString => chars s                       (* strings.Split(s, "") on ASCII: one string per byte *)
+  | EmptyString => utf8_chars s                  (* strings.Split(s, ""): one string per UTF-8 sequence *)
   | _ => split_fuel (S (String.length s)) sep EmptyString s
   end.
 Definition is_space (a : ascii) : bool :=
@@ -121,16 +137,13 @@ Definition scall (m : smeth) (s : string) (args : list elem) : option elem :=
   | SSubstring => match m_substring s slots with Some r => Some (EStr r) | None => None end
   | SReplace =>
       let old := search_str (slot 0 slots) in
-      if (match old with EmptyString => negb (is_ascii_str s) | _ => false end) then None
-      else Some (EStr (replace_all old (search_str (slot 1 slots)) s))
+      Some (EStr (replace_all old (search_str (slot 1 slots)) s))
   | SSplit =>
       match slot 0 slots with
-      | ENull => if is_ascii_str s then Some (EArr (map EStr (fields s))) else None
-      | e => let sep := estr e in
-             if (match sep with EmptyString => negb (is_ascii_str s) | _ => false end) then None
-             else Some (EArr (map EStr (split_by sep s)))
+      | ENull => Some (EArr (map EStr (fields s)))
+      | e => Some (EArr (map EStr (split_by (estr e) s)))
       end
-  | STrim => if is_ascii_str s then Some (EStr (trim_space s)) else None
+  | STrim => Some (EStr (trim_space s))
   | SUpper => if is_ascii_str s then Some (EStr (smap upper_ascii s)) else None
   | SLower => if is_ascii_str s then Some (EStr (smap lower_ascii s)) else None
   | SStartsWith => Some (EBool (prefixb (search_str (slot 0 slots)) s))
@@ -159,8 +172,8 @@ Definition sspec (m : smeth) (s : string) (args : list elem) : option elem :=
       | _ => Some (EStr (replace_all x y s))
       end
   | SSplit, EStr x :: _ => match x with EmptyString => None | _ => Some (EArr (map EStr (split_by x s))) end
-  | SSplit, [] | SSplit, [ENull] => if is_ascii_str s then Some (EArr (map EStr (fields s))) else None
-  | STrim, _ => if is_ascii_str s then Some (EStr (trim_space s)) else None
+  | SSplit, [] | SSplit, [ENull] => Some (EArr (map EStr (fields s)))
+  | STrim, _ => Some (EStr (trim_space s))
   | SUpper, _ => if is_ascii_str s then Some (EStr (smap upper_ascii s)) else None
   | SLower, _ => if is_ascii_str s then Some (EStr (smap lower_ascii s)) else None
   | SStartsWith, EStr x :: _ => Some (EBool (prefixb x s))
